@@ -89,7 +89,15 @@ type Run struct {
 	oracleSeq int
 	simStart  time.Time
 	// per-reconcile observations
-	reconciles int
+	reconciles     int
+	or             OracleSet
+	cur            recOutcome
+	reloadPending  bool
+	startupReloads int
+	startupCmds    int
+	lastFaultAt    time.Time
+	nfHashes       map[string]bool
+	sig            []string
 }
 
 func (r *Run) trace(format string, a ...any) {
@@ -140,7 +148,7 @@ func (r *Run) dnsLookupIP(host string) ([]net.IP, error) {
 // newRun prepares the run state (inside the bubble).
 func newRun(cfg *RunConfig, tape *rt.Tape, traceOn bool) *Run {
 	r := &Run{Cfg: cfg, tape: tape, traceOn: traceOn, probes: map[string]int{}, prefix: "/sim/main",
-		dns: map[string][]string{}, dnsFail: map[string]bool{}}
+		dns: map[string][]string{}, dnsFail: map[string]bool{}, nfHashes: map[string]bool{}}
 	r.simStart = time.Now()
 	r.scheme = newScheme()
 	r.rt = &rt.Run{Tape: tape, Disk: rt.NewDisk(), MapOrder: cfg.MapOrder, GatesOn: true}
@@ -154,11 +162,7 @@ func newRun(cfg *RunConfig, tape *rt.Tape, traceOn bool) *Run {
 	r.ha = NewHAProxy(r, r.prefix)
 	r.ha.Legacy24 = cfg.Legacy24
 	r.rt.Net = r.ha
-	if traceOn {
-		r.logger = funcr.New(func(prefix, args string) { r.trace("log %s %s", prefix, args) }, funcr.Options{Verbosity: 2})
-	} else {
-		r.logger = logr.Discard()
-	}
+	r.logger = funcr.New(r.logSink, funcr.Options{Verbosity: 2})
 	return r
 }
 
@@ -242,10 +246,29 @@ func (r *Run) quiesce() bool {
 		r.kube.Flush()
 		r.settle()
 		for _, g := range r.rt.Parked() {
-			r.runGate(g)
+			r.runTask(g)
 			break
 		}
+		if len(r.violations) > 0 {
+			return true
+		}
 		if len(r.rt.Parked()) > 0 || r.kube.Pending() {
+			idle = 0
+			continue
+		}
+		// small steps first so that rate-limited work starts close to its due time
+		stepped := false
+		for _, d := range []time.Duration{10 * time.Millisecond, 200 * time.Millisecond, time.Second} {
+			if d >= idleWait {
+				break
+			}
+			r.advance(d)
+			if len(r.rt.Parked()) > 0 || r.rt.Activity.Load() != before {
+				stepped = true
+				break
+			}
+		}
+		if stepped {
 			idle = 0
 			continue
 		}
